@@ -88,18 +88,25 @@ def _corrupted(evs):
             c["pt"]["th"]["c"] = [c["pt"]["th"]["c"][0], c["pt"]["th"]["c"][1], reps[i + 1]["pt"]["th"]["c"][2]]
             res.append((c, "ValuePreserved?"))
     # Idempotent: normalising the normal form gives something else
-    for c in pick(lambda e: changed(e) and e["cv"] in ("nat_norm_full", "real_norm", "conj_norm") and e["idem"]["o"] == "ok"):
+    for c in pick(lambda e: changed(e) and e["src"] == "replay" and e["cv"] in ("nat_norm_full", "real_norm", "conj_norm") and e["idem"]["o"] == "ok"):
         eqc, lhs, rhs = _eq_parts(c["idem"]["th"]["c"])
         c["idem"]["th"]["c"] = ["comb", ["comb", eqc, lhs], c["x"]]
         res.append((c, "Idempotent"))
     # Canonical: one member of an orbit gets its own input as normal form
-    for c in pick(lambda e: e["kind"] == "orbit" and e["cv"] in ("nat_norm_full", "real_norm", "conj_norm", "disj_norm") and len(e["ms"]) >= 3
+    for c in pick(lambda e: e["kind"] == "orbit" and e["src"] == "replay" and e["cv"] in ("nat_norm_full", "real_norm", "conj_norm", "disj_norm") and len(e["ms"]) >= 3
                   and any(m["x"] != m["rhs"] for m in e["ms"][1:])):
         for m in c["ms"][1:]:
             if m["x"] != m["rhs"]:
                 m["rhs"] = m["x"]
                 break
         res.append((c, "Canonical?"))
+    # Canonical inside a history: an orbit recorded in a theory state that has the binary-arithmetic theorems
+    for c in pick(lambda e: e["kind"] == "orbit" and e["src"] == "hist" and e["thy"]["binary"] and any(m["x"] != m["rhs"] for m in e["ms"][1:])):
+        for m in c["ms"][1:]:
+            if m["x"] != m["rhs"]:
+                m["rhs"] = m["x"]
+                break
+        res.append((c, "Canonical"))
     for n, (c, _) in enumerate(res):
         c["tid"] = SELF_BASE + n
     return res
@@ -120,17 +127,21 @@ def run(rep, tier):
                 "NegMul, NegNeg, NegAdd, PowFold/Unfold, Dup/Dedup, DeMorgan, DNeg at every position) from every +,* tree with <= 3 leaves over "
                 "{x, y, 0, 1, 2} at nat and at the ring types, hand-picked seeds with - uminus ^ Suc and truncated subtraction as an opaque "
                 "atom, one chain per member set of <= 3 members over {A, B, ~A, ~B, true, false} (thorough: also C, ~C, A-->B, A|C) for /\\ and \\/ "
-                "plus 14 wide seeds of 3-4 members over three atoms (complementary pair on the smallest / a middle / the largest atom, two "
-                "pairs, with true / false / a compound / a duplicated member) of which EVERY order and bracketing is reached, and negated "
+                "plus 27 wide seeds of 3-4 members over three atoms and three APPLICATION atoms x < y, f x = y, P (f y) (complementary pair on "
+                "the smallest / a middle / the largest atom, two pairs, with true / false / a compound / a duplicated member) of which EVERY "
+                "order and bracketing is reached, and negated "
                 "formulas, growing to %s. An orbit = the reachable states of one class (polynomial / member set). Every "
                 "orbit is replayed (at most %d members of an orbit: the smallest and a seeded sample; ring orbits at real and %s at int) through "
                 "every normaliser of its kind. TLC enumerates all well-typed closed terms with binders of size <= %d over {x, y, f, 0, +} plus "
                 "rule redexes nested / under binders / conditional, beta-redexes contracting to abstractions, eta-expansions; a seeded 1/%d of "
-                "them (all conditional and abstraction-producing ones) is run with two binder namings through 53 combinator expressions; plus "
-                "%d seeded random orbits of 4-7 leaf expressions. Non-trivial = the conversion returned an equation and the contract, the "
+                "them (all conditional, abstraction-producing and nested-binder-with-redex ones) is run with up to three binder namings (every "
+                "binder named like a free variable / every binder the same fresh name / all different) through 53 (quick: 35) combinator expressions; "
+                "theory histories: one theory object extended item by item through nat.json, nat.norm_full on members of every nat orbit "
+                "after each extension around the binary-arithmetic theorems (thorough: items 18..89, then every 12th), canonicity judged "
+                "per theory state that has them; plus %d seeded random orbits of 4-7 leaf expressions (incl. application atoms). Non-trivial = the conversion returned an equation and the contract, the "
                 "checker replay and the exact value clause (polynomial / truth table) were evaluated, or an orbit with at least two members "
                 "of one class was compared; distinct by full event content."
-                % (("3 leaves / 3 members / size 9", 24, "a quarter of them", 6, 5, 40) if quick else ("4 leaves / 4 members / size 11", 100, "all", 7, 2, 1000)))
+                % (("3 leaves / 3 members / size 9", 20, "a quarter of them", 6, 7, 40) if quick else ("4 leaves / 4 members / size 11", 100, "all", 7, 3, 1000)))
     rep.assumptions = ["formal polynomial identity over variable atoms = equality of the denoted functions on nat / int / real (infinite domains); "
                        "with opaque atoms (truncated subtraction) a difference is only a divergence",
                        "canonicity and idempotence are demanded of nat.norm_full, real.real_norm_conv, auto.auto_conv (reals), proplogic.norm_full / "
@@ -177,8 +188,8 @@ def run(rep, tier):
         rep.notes["term_universe"] = " ".join(r2.out[r2.out.find('<< "terms"'):].split(">>")[0].replace("<<", "").split())
     # ---- spec -> code: one driver process (theories loaded once), forked workers
     allp = wd / "events.ndjson"
-    arith_mod, int_mod, comb_mod, nrand, cap = (1, 4, 5, 40, 24) if quick else (1, 1, 2, 1000, 100)
-    p, _ = run_driver("c10", ["all", dump_file, vec, allp, 3 if quick else 4, arith_mod, int_mod, comb_mod, nrand, seed(), cap], timeout=6000)
+    arith_mod, int_mod, comb_mod, nrand, cap = (1, 4, 7, 40, 20) if quick else (1, 1, 3, 1000, 100)
+    p, _ = run_driver("c10", ["all", dump_file, vec, allp, 3 if quick else 4, arith_mod, int_mod, comb_mod, nrand, seed(), cap, 0 if quick else 1], timeout=6000)
     rep.notes["driver"] = p.stdout.strip().splitlines()[-5:]
     phase("driver")
     # ---- code -> spec: the validation of the events (3 JVMs) runs while Python reads them; the corrupted copies (binding
@@ -234,6 +245,10 @@ def run(rep, tier):
     tr = rep.notes["traces"]
     require(tr["replay"]["nontrivial"] >= (2500 if quick else 20000), "C10: too few examined normaliser calls (vacuity guard): %s" % tr["replay"])
     require(tr["comb"]["nontrivial"] >= (4000 if quick else 20000), "C10: too few examined combinator calls (vacuity guard): %s" % tr["comb"])
+    require(tr["hist"]["nontrivial"] >= (600 if quick else 6000), "C10: too few examined calls in theory histories (vacuity guard): %s" % tr["hist"])
+    hs = [e for e in by_src["hist"] if e["kind"] == "orbit" and e["tid"] in set(v["nontrivial"])]
+    require(sum(1 for e in hs if e["thy"]["binary"]) >= 50 and sum(1 for e in hs if e["thy"]["mult_comm"] and not e["thy"]["binary"]) >= 50,
+            "C10: the histories do not cover theory states before and after the binary-arithmetic theorems (vacuity guard)")
     require(tr["rand"]["nontrivial"] >= (150 if quick else 3000), "C10: too few examined random inputs (vacuity guard): %s" % tr["rand"])
     cvs = {e["cv"] for e in evs if e["kind"] == "orbit" and e["tid"] in set(v["nontrivial"])}
     require({"nat_norm_full", "real_norm", "real_auto", "prop_norm_full", "sort_conj", "sort_disj", "conj_norm", "disj_norm"} <= cvs,
